@@ -198,3 +198,75 @@ def cases(func: Func, max_paths: int = MAX_PATHS) -> Optional[List[Case]]:
 
 def returning(cs: List[Case]) -> List[Case]:
     return [c for c in cs if not c.raised and c.ret_node is not None]
+
+
+# --------------------------------------------------------------------------------------------------
+# seeing through small helpers
+# --------------------------------------------------------------------------------------------------
+class _Expand(ast.NodeTransformer):
+    def __init__(self, ctx, func: Func, depth: int):
+        self.ctx, self.func, self.depth = ctx, func, depth
+
+    def _target(self, call: ast.Call):
+        fn = call.func
+        ix = self.ctx.ix
+        if isinstance(fn, ast.Name):
+            t = ix.scope_lookup(self.func.module, self.func, fn.id)
+            return (t, False) if isinstance(t, Func) else (None, False)
+        if isinstance(fn, ast.Attribute) and isinstance(fn.value, ast.Name):
+            f = self.func
+            while f is not None and f.self_name is None:
+                f = f.parent
+            if f is not None and fn.value.id == f.self_name and f.cls is not None:
+                m = f.cls.lookup(fn.attr)
+                if isinstance(m, Func) and m.kind in ("method", "static", "classmethod"):
+                    return m, m.kind == "method"
+        return None, False
+
+    def visit_Call(self, node: ast.Call):
+        node = self.generic_visit(node)
+        if self.depth <= 0:
+            return node
+        t, bound = self._target(node)
+        if t is None or t is self.func:
+            return node
+        # only small private helpers: nested functions and leading-underscore functions / methods
+        if not (t.parent is not None or (t.name.startswith("_") and not t.name.startswith("__"))):
+            return node
+        if any(isinstance(a, ast.Starred) for a in node.args) or any(k.arg is None for k in node.keywords):
+            return node
+        cs = cases(t, max_paths=4)
+        if not cs:
+            return node
+        rc = returning(cs)
+        if len(rc) != 1 or len(cs) != len(rc) or rc[0].guards or rc[0].value is None or any(v for v in rc[0].stores.values()):
+            return node
+        from .resolve import bind_call
+        try:
+            b, errs = bind_call(node, t, bound)
+        except Exception:
+            return node
+        if errs:
+            return node
+        env = {p: e for p, e in b.items()}
+        # parameters left at their defaults
+        a = t.node.args
+        pos = a.posonlyargs + a.args
+        for p, dv in zip(pos[len(pos) - len(a.defaults):], a.defaults):
+            env.setdefault(p.arg, dv)
+        body_locals = {n.id for n in ast.walk(t.node) if isinstance(n, ast.Name) and isinstance(n.ctx, ast.Store)}
+        if any(p not in env for p in t.params):
+            return node
+        # the helper must be closed: every free name of the returned expression is a parameter or resolves identically here
+        val = subst(rc[0].value, env)
+        if t.self_name and bound:
+            pass            # `self` inside a method is the same object as in the caller
+        out = _Expand(self.ctx, t, self.depth - 1).visit(val)
+        return ast.copy_location(out, node)
+
+
+def expand_calls(ctx, func: Func, expr: ast.AST, depth: int = 2) -> ast.AST:
+    """`expr` with calls of small private helpers (nested functions, _private functions / methods whose body is one
+    returned expression after local substitution) replaced by that expression applied to the arguments."""
+    e = _Expand(ctx, func, depth).visit(clone(expr))
+    return ast.fix_missing_locations(e)
